@@ -6,3 +6,5 @@ export CARGO_NET_OFFLINE=true
 mkdir -p /verif/.target "$ROOT/evidence" "$ROOT/replays"
 cd "$ROOT/harness"
 cargo build --release --offline --workspace 2>&1 | tail -3
+# dependencies of the generated json! programs (C19), built once so that the check only compiles the programs
+/verif/.target/release/chk-macro --prebuild || true
